@@ -20,7 +20,7 @@ func init() {
 		Rule: "full rate-limited flows client -> attester.VerifyRequest -> issuer.Evaluate -> attester.FinalizeIndex for 4 clients x 4 origins (two origins deliberately share one index key) x R requests each with fresh blind, each flow run against a fresh attester and against one long-lived attester per worker on which the client reuses one anonymous origin ID for all origins (incl. 1, N-1, leading-zero and > N encodings), nonce and challenge. " +
 			"Oracle: every returned index equals HKDF-SHA-384(salt = compress(client key), ikm = compress(k_o * client key), info = \"IssuerOriginAlias\", 48) with k_o = hash_to_field(bytes(index key D)||0x00||0x0003||\"IssuerBlind\"), all computed by the reference (own XMD, own HKDF, std curve); Evaluate's second value equals compress(k_o * request key); indices of distinct clients or distinct index keys differ; origins sharing an index key give equal indices. " +
 			"distinct_nontrivial = distinct (client, origin, blind class) triples",
-		Floors:      []string{"index_matches_reference", "blinded_request_key_matches_reference", "repeat_same_index", "distinct_pairs_differ", "shared_index_key_equal", "edge_blinds", "index_matches_reference_on_used_attester"},
+		Floors:      []string{"index_matches_reference", "blinded_request_key_matches_reference", "repeat_same_index", "distinct_pairs_differ", "shared_index_key_equal", "edge_blinds", "index_matches_reference_on_used_attester", "retained_ids_rechecked", "negated_key_request_refused"},
 		Assumptions: []string{"crypto/elliptic, crypto/hmac and the SHA-2 family of the standard library are the trusted base of the reference"},
 		Run:         runC08,
 	})
@@ -85,6 +85,9 @@ func runC08(c *core.Ctx) {
 	// one long-lived attester per worker process: every client uses the SAME anonymous origin ID for all its
 	// origins there, so state accumulated by earlier requests (of this or another origin) is in place
 	persistent := type3.NewRateLimitedAttester(newMemCache())
+	// IDs handed out earlier are kept (the slices themselves, not copies) and must keep their value
+	type kept struct{ got, want []byte }
+	var retained []kept
 	for ci := 0; ci < nClients; ci++ {
 		for o := 0; o < nOrigins; o++ {
 			for rep := 0; rep < R; rep++ {
@@ -181,6 +184,37 @@ func runC08(c *core.Ctx) {
 						return
 					}
 					c.Class("index_matches_reference_on_used_attester")
+					retained = append(retained, kept{idx, clone(want)}, kept{pidx, clone(want)})
+					if len(retained) > 400 {
+						retained = retained[len(retained)-400:]
+					}
+					for _, k := range retained {
+						if !bytes.Equal(k.got, k.want) {
+							bad("earlier-id-changed", "an ID returned by an earlier FinalizeIndex call changed its value after later calls")
+							return
+						}
+					}
+					c.Class("retained_ids_rechecked")
+					// an adversarial twin of this client: secret N-d gives the negated client key; its correctly signed
+					// request presented under the honest client key must not lead to another ID for this client
+					{
+						negSecret := new(big.Int).Sub(N, new(big.Int).SetBytes(secrets[ci])).FillBytes(make([]byte, 48))
+						adv := newT3Signer(negSecret, blind)
+						nkid, ct := r.Bytes(32), r.Bytes(120)
+						areq := type3.RateLimitedTokenRequest{RequestKey: adv.RequestKeyEnc, NameKeyID: nkid, EncryptedTokenRequest: ct, Signature: adv.sign(r, t3SignedMessage(adv.RequestKeyEnc, nkid, ct))}
+						att2 := type3.NewRateLimitedAttester(newMemCache())
+						if att2.VerifyRequest(areq, blind, clientKeys[ci], []byte("anon")) == nil {
+							ax, ay, _ := ref.ECDecompress(curve, adv.RequestKeyEnc)
+							abx, aby := ref.ECMul(curve, ax, ay, ko)
+							aidx, err := att2.FinalizeIndex(clientKeys[ci], blind, ref.ECCompress(curve, abx, aby), []byte("anon"))
+							if err == nil && !bytes.Equal(aidx, want) {
+								bad("second-id-for-same-client-and-origin", "a request signed under the negated client key was accepted for this client and yields a different ID for the same client and origin")
+								return
+							}
+						} else {
+							c.Class("negated_key_request_refused")
+						}
+					}
 					if rep > 0 {
 						c.Class("repeat_same_index")
 					}
